@@ -11,6 +11,7 @@ EXTENDS BackupRestore, Json
 VARIABLE l
 
 TraceChanSeq == << "c1", "c2" >>
+TraceCfgs == {[kind |-> "msg", api |-> "reader", ps |-> 1]}   \* replaced by the Init line of every trace
 
 Log == ndJsonDeserialize("trace.ndjson")
 
